@@ -244,7 +244,8 @@ func checkC16(c *core.Ctx) {
 				return false
 			}, func(ins ssa.Instruction) bool {
 				iff, ok := ins.(*ssa.If)
-				return ok && fieldLoadNamed(iff.Cond, "NoCopy")
+				// either operand of the pair: `p.zeroCopy && p.NoCopy` short-circuits past the NoCopy test
+				return ok && (fieldLoadNamed(iff.Cond, "NoCopy") || fieldLoadNamed(iff.Cond, guardField))
 			})
 			if first != nil {
 				bad = true
@@ -254,7 +255,8 @@ func checkC16(c *core.Ctx) {
 			// only on the one that creates the channel: no path entry -> return may avoid the NoCopy test (C16-13)
 			if ret := core.ForwardSearch(pctx, nil, func(ins ssa.Instruction) bool { _, ok := ins.(*ssa.Return); return ok }, func(ins ssa.Instruction) bool {
 				iff, ok := ins.(*ssa.If)
-				return ok && fieldLoadNamed(iff.Cond, "NoCopy")
+				// either operand of the pair: `p.zeroCopy && p.NoCopy` short-circuits past the NoCopy test
+				return ok && (fieldLoadNamed(iff.Cond, "NoCopy") || fieldLoadNamed(iff.Cond, guardField))
 			}); ret != nil && first == nil {
 				bad = true
 				r2.Violate("gopacket.(*PacketSource).PacketsCtx/guard-every-call", p.InstrPos(ret), "a call that finds the channel already created returns it without testing NoCopy && "+guardField+": options changed after the first call are not refused although packetsToChannel re-reads them per packet", nil)
